@@ -50,6 +50,8 @@ def cases(draw, prof=None):
     kw = {}
     if spec["objectives"] and draw(st.integers(0, 99)) < 40:
         kw = {"max_iter": draw(st.integers(1, 3))}  # the optimisation is cut short: the enumeration that follows is judged all the same
+    if draw(st.integers(0, 99)) < 20:
+        kw["debug"] = True  # tracked assertions (incremental optimiser or plain solver): the enumeration is the same
     return {"spec": spec, "ops": ops, "kw": kw, "seed": draw(st.integers(0, 2**30))}
 
 
